@@ -52,12 +52,6 @@ Section ValueInd.
 End ValueInd.
 
 (* ---- the fully qualified type tag: "<module>.<qualified name>" *)
-Fixpoint join_dots (parts : list str) : str :=
-  match parts with
-  | [] => []
-  | [p] => p
-  | p :: r => p ++ 46 :: join_dots r
-  end.
 Definition qualified_tag (c : cls) : str := c_mod c ++ 46 :: join_dots (c_qual c).
 
 (* ---- the grammar of the statement: objects are SubclassJSONSerializer instances (with child values) or instances of
